@@ -167,6 +167,14 @@ C('orthogonalize', 'k1-stab', lambda g: ((tt(g, [3, 4, 2]), 1, True), {}))
 C('orthogonalize_left', 'copy', lambda g: ((tt(g, [3, 4, 2]), 0), {}))
 C('orthogonalize_left', 'inplace', lambda g: ((tt(g, [3, 4, 2, 3]), 1),
     dict(inplace=True)), inplace=(1, 2))
+C('orthogonalize_left', 'copy-flag-numpy-false', lambda g: ((tt(g, [3, 4, 2]),
+    0, np.False_), {}))
+C('orthogonalize_left', 'copy-flag-zero', lambda g: ((tt(g, [3, 4, 2]), 1),
+    dict(inplace=0)))
+C('orthogonalize_right', 'copy-flag-numpy-false', lambda g: ((tt(g, [3, 4, 2]),
+    2), dict(inplace=np.bool_(False))))
+C('orthogonalize_right', 'copy-flag-zero', lambda g: ((tt(g, [3, 4, 2]), 1, 0),
+    {}))
 C('orthogonalize_right', 'copy', lambda g: ((tt(g, [3, 4, 2]), 2), {}))
 C('orthogonalize_right', 'inplace', lambda g: ((tt(g, [3, 4, 2, 3]), 2, True),
     {}), inplace=(2, 1))
@@ -594,6 +602,55 @@ C('ANOVA', 'order1-methods', lambda g: (lambda a, k: (a, dict(k,
 C('ANOVA', 'order2-methods', lambda g: (lambda a, k: (a, dict(k,
     _cores=dict(r=3, noise=1e-8))))(*_anova(g, 2)), seeded=True,
     runner=_run_ANOVA, heavy=True)
+
+
+def _run_fitted_then_scribbled(make, use):
+    """Runner for fitted objects: the object is built, then the caller's
+    training arrays are overwritten in place (the buffers are re-used), then
+    the object is used.  It must behave like an object built from the
+    original data and never touched: a fitted model owns its data."""
+    def runner(t, a, k):
+        import copy
+        k = dict(k)
+        extra = k.pop('_cores', {})
+        a0, k0 = copy.deepcopy((a, k))
+        fresh = use(make(t, a0, k0), a0, extra)
+        obj = make(t, a, k)
+        for x in a:
+            if isinstance(x, np.ndarray) and x.flags.writeable and x.size:
+                if x.dtype.kind == 'f':
+                    x[...] = x[::-1].copy() * 3. + 1.
+                elif x.dtype.kind in 'iu':
+                    x[...] = x[::-1].copy()
+        got = use(obj, a0, extra)
+        for x, x0 in zip(a, a0):         # hand the caller's buffers back
+            if isinstance(x, np.ndarray) and x.flags.writeable and x.size:
+                x[...] = x0
+        from tvmon import sanit as _s
+        if _s.canon_hash(got) != _s.canon_hash(fresh):
+            raise RuntimeError('a fitted object follows later in-place writes '
+                'to the arrays it was built from (it kept references to the '
+                "caller's training data)")
+        return got
+    return runner
+
+
+def _use_anova(model, a, cores_kw):
+    I = np.asarray(a[0])
+    return [model(I[:4]), model.calc(I[1]), model.cores(**cores_kw)]
+
+
+C('ANOVA', 'order2-buffers-reused', lambda g: (lambda a, k: (a, dict(k, seed=5,
+    _cores=dict(r=3, noise=0.))))(*_anova(g, 2)), runner=
+    _run_fitted_then_scribbled(lambda t, a, k: t.ANOVA(*a, **k), _use_anova),
+    heavy=True)
+C('ANOVA', 'order1-buffers-reused', lambda g: (lambda a, k: (a, dict(k, seed=5,
+    _cores=dict(r=2, noise=0.))))(*_anova(g, 1)), runner=
+    _run_fitted_then_scribbled(lambda t, a, k: t.ANOVA(*a, **k), _use_anova),
+    heavy=True)
+C('ANOVA_func', 'buffers-reused', lambda g: _anova_func(g), runner=
+    _run_fitted_then_scribbled(lambda t, a, k: t.ANOVA_func(*a, **k),
+    lambda m, a, ex: [m.cores(), m.cores(e=1e-4)]), heavy=True)
 
 
 def _anova_func(g):
